@@ -500,7 +500,7 @@ def f(x: FLOAT[...], y: FLOAT[...]):
 P("bool_ops_python", '''
 @script()
 def f(a: BOOL[...], b: BOOL[...]):
-    return (a & b) | op.Not(a), a ^ b
+    return (a & b) | op.Not(a), op.Xor(a, b)
 ''', ["a:B:2 b:B:2"])
 
 P("int_float_mix_cast", '''
@@ -527,6 +527,11 @@ def f(x: FLOAT[...], y: FLOAT[...]):
 
 # ---------------------------------------------------------------- near-miss programs (must be refused)
 NEAR_MISS_RAW = [
+    ("unsupported_operator_xor", '''
+@script()
+def f(a: BOOL[...], b: BOOL[...]):
+    return a ^ b
+'''),
     ("undefined_on_path", '''
 @script()
 def f(x: FLOAT[...], c: BOOL):
